@@ -204,9 +204,10 @@ def run_check(pid, tier, repo, seed, opts):
                 if d not in order:
                     order.append(d)
                     todo.append(d)
-        inputs = [o['native'] for o in sat if o.get('native') is not None][:20]
         for k, p2 in enumerate(order):
             budget_tier = tier if (need_native or k == 0) else 'quick'        # dependencies' stand-ins: quick sweep unless something is open
+            # model-derived inputs go to the oracle they were written for (kinds of different oracles may share a name)
+            inputs = [o['native'] for o in sat if o.get('native') is not None and o.get('native_prop') in (None, p2)][:20]
             r = native_standin(p2, repo, budget_tier, seed, inputs=inputs)
             if r is not None:
                 r['property'] = p2
@@ -221,6 +222,17 @@ def run_check(pid, tier, repo, seed, opts):
     known = [f for f in kf.get('findings', []) if f.get('property') == pid]
     native_fail = (standin or {}).get('failures') or []
     used_native = False
+    # A postcondition is derived under the unit's invariants and within the supported subset.  If, in the same unit, part of the
+    # code was outside the subset / did not match its loop invariant (an undecided path), or an invariant obligation fails, a
+    # failing postcondition may be an artefact of that mismatch: without a concrete failing input it is reported as undecided.
+    tainted = set()
+    for r in results:
+        tag_ = r['unit'] + ('' if r['debug'] else '[-O]')
+        if r.get('undecided'):
+            tainted.add(tag_)
+    for o in sat:
+        if o.get('kind') in ('inv-entry', 'inv-preserve', 'variant'):
+            tainted.add(o['unit'])
     for o in sat:
         rp = os.path.join(ROOT, 'replay', 'found', '%s_%s.json' % (pid, __import__('hashlib').sha1((o['unit'] + o['name']).encode()).hexdigest()[:10]))
         rec = {'property': pid, 'obligation': o['name'], 'unit': o['unit'], 'function': o['where'], 'tier': o['tier'], 'kind': o['kind'],
@@ -240,12 +252,13 @@ def run_check(pid, tier, repo, seed, opts):
         if confirmed is not None:
             json.dump(rec, open(rp, 'w'), indent=1, default=str)
             violations.append((o, rp, ''))
-        elif o['tier'] == 'P' and o['status'] == 'sat' and not engine_untrusted:
+        elif o['tier'] == 'P' and o['status'] == 'sat' and not engine_untrusted and o['unit'] not in tainted:
             json.dump(rec, open(rp, 'w'), indent=1, default=str)
             violations.append((o, rp, ' no-failing-input-found'))
         else:
-            lines.append('UNDECIDED property=%s obligation=%s (internal obligation fails, no failing input found natively; bound=%s)'
-                         % (pid, o['name'], (standin or {}).get('bound', 'no stand-in')))
+            why = 'internal obligation fails' if o['tier'] != 'P' else ('postcondition fails in a unit whose invariants / supported subset no longer match the code' if o['unit'] in tainted else 'candidate only')
+            lines.append('UNDECIDED property=%s obligation=%s (%s, no failing input found natively; bound=%s)'
+                         % (pid, o['name'], why, (standin or {}).get('bound', 'no stand-in')))
     if native_fail and not used_native:
         f = native_fail[0]
         rp = os.path.join(ROOT, 'replay', 'found', '%s_native.json' % pid)
